@@ -474,8 +474,33 @@ class Replayer:
             for n, tr in enumerate(walk):
                 if not self.step(w, tr, walk, n):
                     return
+            self.epilogue(w, walk)
         finally:
             set_atol(False)
+
+    def epilogue(self, w, walk):
+        """every read of the walk once more at its end: a read is idempotent along the history (a call that toggles a cached
+        table in place shows only in its own repetition).  Quick tier: the conversions and compositions; thorough: all reads."""
+        chk = self.chk
+        names = []
+        for tr in walk:
+            nm = tr["arg"].get("name") if tr["act"] == "Pure" else None
+            if nm and nm not in names and (chk.tier == "thorough" or not nm.startswith(("proj_", "physproj_"))):
+                names.append(nm)
+        atol = walk[-1]["to"]["atol"]
+        for nm in names:
+            exc = None
+            try:
+                res = digest(w.pure(nm))
+            except Exception as e:
+                exc = e
+                res = "EXC:" + type(e).__name__
+            chk.count(1, ("repeat", nm))
+            want = self.fresh_digest("pure", nm, [], atol)
+            if res != want and not (exc is None and self.numerically_equal(w, nm, atol)):
+                chk.violation("history_dependent:repeat:%s" % nm, "%s repeated at the end of the walk gives %s, in a fresh world %s%s" % (
+                    nm, res, want, " exception %r" % exc if exc else ""), dict(walk=_slim(walk), step=len(walk)))
+                return
 
     def step(self, w, tr, walk, n):
         chk = self.chk
